@@ -398,6 +398,9 @@ def run(chk):
         cm = exs[0]['cm']
         if not (cm['te'] or cm['sclose'] or cm['method'] == 'HEAD' or cm['status'] in (204, 304)):
             continue            # (a length-delimited message on a connection the server keeps open: the client would wait)
+        if cm['coded'] and not cm['te'] and cm['trunc'] != M.NOTRUNC:
+            continue            # (without its length a coded body is delimited by the close only: a cut cannot be seen to be
+                                #  one, and whether the decoder notices is C19's subject - as for messages built that way)
         r = Run(exs, warc=warc, ignore_length=True)
         r.execute()
         runs.append(('ignore-length', NX, exs, r))
